@@ -1,7 +1,7 @@
 ---------------------------- MODULE MC_Manager ----------------------------
 (* Bounded universe for spec/Manager.tla (property C19): every configuration [mix, kinds, w] with up to NMax strategies
    drawn from the family of the harness (harness/mgr_drv.py), w in 1..MaxW, market mixes 1 = {UniLpMarket},
-   2 = {UniLpMarket, AaveV3Market}; every schedule of the task queue over the workers.  The configuration is chosen by
+   2 = {UniLpMarket, AaveV3Market}, 3 = {UniLpMarket, DeribitOptionMarket}; every schedule of the task queue over the workers.  The configuration is chosen by
    the first action, so the dumped graph has one root; `last` labels every edge with the event. *)
 EXTENDS Manager, TLC
 
@@ -13,7 +13,9 @@ CONSTANTS NMax,      \* strategies per configuration: 1 .. NMax
 VARIABLES st, last
 vars == <<st, last>>
 
-KindsOf(m) == IF m = 1 THEN {"idle", "lp", "late", "swap"} ELSE {"idle", "lp", "late", "swap", "aave"}
+KindsOf(m) == CASE m = 1 -> {"idle", "lp", "late", "swap"}
+                [] m = 2 -> {"idle", "lp", "late", "swap", "aave"}
+                [] m = 3 -> {"idle", "opt", "opt2"}        \* minutely pool + hourly option market: two takers of the same book level
 KindSeqs(m) == UNION {[1 .. n -> KindsOf(m)] : n \in 1 .. NMax}
 Distinct(f) == \A i, j \in DOMAIN f : i # j => f[i] # f[j]
 
